@@ -324,8 +324,8 @@ func (c *c03) RunCase(r *fw.Rec, cs fw.Case) {
 		return
 	}
 	// the same pair under small allocation budgets: the limit error and its reported position must agree too
-	if totalRemoved > 0 && cs.Index%4 == 1 && len(src) < 20000 {
-		for _, budget := range []int64{1, 2, 3, 4, 6, 9, 14} {
+	if totalRemoved > 0 && (cs.Index%4 == 1 || cs.Index < len(c03Directed)) && len(src) < 20000 {
+		for _, budget := range []int64{0, 1, 2, 3, 4, 6, 9, 14} {
 			rawMaxAllocs = budget
 			a2 := runRaw(optC, optC.BC, 2_000_000, nil)
 			b2 := runRaw(keepC, keepC.BC, 2_000_000, nil)
@@ -416,6 +416,10 @@ func c03Big(r *rand.Rand) string {
 }
 
 var c03Directed = []string{
+	"f := func(stop) {\n  for {\n    if stop { break }\n    return 0\n    stop = \"never\"\n  }\n  return []\n}\nout := f(true)",
+	"f := func(stop) {\n  for {\n    if stop { break }\n    return 0\n    stop = \"never\"\n  }\n  m := {}\n  return m\n}\nout := f(true)",
+	"h := func(n) {\n  for i := 0; i < n; i++ {\n    if i > 5 { break }\n    continue\n    n = 0\n  }\n  []\n  return {}\n}\nout := h(2)",
+	"k := func(c) {\n  if c {\n    c = 1\n  } else {\n    return 2\n    c = 3\n  }\n  {}\n  x := []\n  return x\n}\nout := k(true)",
 	"f := func(n) {\n  for i := 0; i < n; i++ {\n    if i == 1 {\n      return i\n      i = 9\n    }\n  }\n  m := {}\n  a := []\n  return [m, a]\n}\nr := f(0)\ns := f(3)",
 	"g := func(c) {\n  if c {\n    return 1\n    c = 2\n  } else {\n    c = 3\n  }\n  []\n  x := {}\n  return x\n}\nr := [g(false), g(true)]",
 	"f := func(a, b) { if a { return 1 } else { return 2 }; x := a || b; return x }\nr1 := f(true, 0); r2 := f(false, 0)",
